@@ -153,7 +153,7 @@ Section Cache.
   Proof.
     induction c as [|[k e0] r IH]; cbn; [tauto|].
     destruct (index_eqb k i) eqn:K; cbn; auto.
-    apply index_eqb_neq in K. intros [H|H]; [congruence|]. now rewrite IH.
+    apply index_eqb_neq in K. intros [H|H]; [congruence|]. f_equal. now apply IH.
   Qed.
 
   Lemma keys_store_notin c i e : ~ In i (keys c) -> keys (store c i e) = keys c ++ [i].
@@ -161,7 +161,7 @@ Section Cache.
     induction c as [|[k e0] r IH]; cbn; auto.
     destruct (index_eqb k i) eqn:K; cbn.
     - apply index_eqb_eq in K. subst. tauto.
-    - intros H. rewrite IH; tauto.
+    - intros H. f_equal. apply IH. tauto.
   Qed.
 
   Lemma wf_store c i e : wf_cache c -> wf_cache (store c i e).
@@ -661,16 +661,50 @@ Section Cache.
     assert (eval s (getitem (S fuel)) i (log_event (EvEval s i) (set_entry s i Pending w))
             = (Raise RuntimeError, log_event (EvEval s i) (set_entry s i Pending w))) as H.
     { rewrite Hself. apply getitem_pending. rewrite wlookup_log. apply wlookup_set_entry_eq. }
-    rewrite (getitem_exn_arms (S fuel) s i w L H). cbn [fst snd]. split; auto.
+    rewrite (@getitem_exn_arms (S fuel) s i w _ _ L H). cbn [fst snd]. split; auto.
     apply wlookup_drop_eq. apply wf_log, wf_set_entry, W.
   Qed.
+
+  (* -------------------------------------------------------------------- *)
+  (* Scripts of user-level requests (used by the correspondence harnesses). *)
+
+  Inductive request : Type :=
+  | RGet (s : sid) (i : index)       (* series[i] for a normalised integer index *)
+  | RHas (s : sid) (i : index)       (* i in series *)
+  | RPop (s : sid) (i : index).      (* series.pop(i, default) *)
+
+  Inductive observation : Type :=
+  | OGet (r : result)
+  | OHas (b : bool)
+  | OPop (e : option entry).
+
+  Definition run_request (fuel : nat) (q : request) (w : world) : observation * world :=
+    match q with
+    | RGet s i => let (r, w') := getitem fuel s i w in (OGet r, w')
+    | RHas s i => (OHas (wcontains w s i), w)
+    | RPop s i => let (e, w') := pop s i w in (OPop e, w')
+    end.
+
+  Fixpoint run_script (fuel : nat) (qs : list request) (w : world) : list observation * world :=
+    match qs with
+    | [] => ([], w)
+    | q :: rest =>
+        let (o, w1) := run_request fuel q w in
+        let (os, w2) := run_script fuel rest w1 in
+        (o :: os, w2)
+    end.
+
+  (* the eval calls recorded in the log, in order *)
+  Definition eval_calls (w : world) : list (sid * index) :=
+    flat_map (fun e => match e with EvEval s i => [(s, i)] | EvRemove _ _ => [] end) (wlog w).
 
 End Cache.
 
 Arguments Pending {V}.
 Arguments Done {V} _.
-Arguments EvEval s i.
-Arguments EvRemove s i.
+Arguments OGet {V E} r.
+Arguments OHas {V E} b.
+Arguments OPop {V E} e.
 
 (* ---------------------------------------------------------------------- *)
 (* A concrete, non-trivial eval that satisfies `eval_respects`: series 0 is given
